@@ -578,6 +578,9 @@ func (vc *FuncVC) unop(st *State, fr *Frame, in *ssa.UnOp) any {
 		}
 		v := st.load(a)
 		v.GT = in.Type()
+		if v.S == SSlice {
+			st.assume(vc.sliceWF(v.T)) // every slice value in memory is well formed
+		}
 		if v.S == SInt {
 			switch in.Type().Underlying().(type) {
 			case *types.Pointer, *types.Map, *types.Chan, *types.Signature:
